@@ -22,7 +22,7 @@ LEVEL_TEXT = ("Proof (F/M, partial overall): for every interleaving of sessions 
 LEVEL_NOTE = ("Trusted: Coq kernel, Go harness + Python glue. Modelled, not verified: go-mysql-server execution of the statements, session state caching "
               "(dsess.DoltSession.clear / dbStates), one database, one branch, one table (reads of other branches via AS OF / revision databases are outside "
               "this model), true parallelism (statements are issued one at a time).")
-THEOREMS = ["others_invisible", "snapshot_stable", "no_dirty_read", "visible_after_commit_and_begin", "implicit_begin_reads_committed"]
+THEOREMS = ["others_invisible", "snapshot_stable", "no_dirty_read", "visible_after_commit_and_begin", "implicit_begin_reads_committed", "oracle_accepts_model"]
 RULE = ("schedules of 8-30 statements over 2-4 sessions (some autocommit) on t(pk,a,b), read-heavy mix (SELECT / SELECT WHERE pk=k 35%); every session "
         "commits at the end; non-trivial = a session reads while another session has committed or written since its snapshot; distinct by schedule content")
 ASSUMPTIONS = ["single database / branch / table; statements issued one at a time"]
